@@ -391,6 +391,8 @@ class World:
             man['priority'] = spec['prio']
         if spec.get('traits'):
             man['traits'] = list(spec['traits'])
+        if spec.get('affinity_limits'):
+            man['affinity_limits'] = dict(spec['affinity_limits'])
         self.b.raw_put('/scheduled/' + aname(i, spec['proid']), man)
 
     def app(self, i):
@@ -1212,6 +1214,9 @@ ANCHORS = ['lib/python/treadmill/scheduler/master.py', 'lib/python/treadmill/sch
 # ---------------------------------------------------------------------------
 # generator
 # ---------------------------------------------------------------------------
+AFF_LIMITS = {}      # profile 'sched': proid -> affinity limits (instances of one affinity share their limits)
+
+
 def gen_app(rng, groups):
     spec = {'proid': rng.choice(PROIDS),
             'demand': [rng.choice([300, 500, 800, 1200, 1500]), rng.choice([20, 50, 100, 150]),
@@ -1230,6 +1235,8 @@ def gen_app(rng, groups):
         spec['prio'] = rng.randint(1, 100)
     if rng.random() < 0.1:
         spec['traits'] = ['ssd']
+    if AFF_LIMITS.get(spec['proid']):
+        spec['affinity_limits'] = dict(AFF_LIMITS[spec['proid']])
     return spec
 
 
@@ -1256,6 +1263,11 @@ def gen_allocations(rng, partitions):
 
 
 def gen_case(rng, profile='c10', max_ops=None):
+    AFF_LIMITS.clear()
+    if profile == 'sched':
+        for pr in PROIDS:
+            if rng.random() < 0.5:
+                AFF_LIMITS[pr] = rng.choice([{'server': 1}, {'rack': 1}, {'server': 1, 'rack': 2}, {'rack': 2}, {'cell': 3}])
     racks = [1] if rng.random() < 0.6 else [1, 2]
     partitions = ['p1'] if rng.random() < 0.35 else []
     nsrv = rng.choice([2, 3, 3, 4])
@@ -1282,6 +1294,13 @@ def gen_case(rng, profile='c10', max_ops=None):
         weights.update({'Restart': 7, 'PresenceBounce': 4, 'IdentityGroup': 5, 'ServerRecord': 6})
     if profile == 'c09':
         weights.update({'ServerDeleteApi': 3, 'IdentityGroup': 5, 'Renew': 3})
+    if profile == 'sched':
+        # the scheduler-level statements (C02..C07) on the real Master: everything that reaches the scheduler through
+        # the Loader and the event handlers; the delete-API races are judged under C09/C10 (their known finding leaves
+        # stale placement records behind, with consequences for every other statement)
+        weights.update({'ServerDeleteApi': 0, 'DeleteRace': 0, 'Deliver': 0, 'Allocations': 5, 'ServerRecord': 6,
+                        'ServerState': 5, 'Priority': 4, 'AppsBlacklist': 2, 'IdentityGroup': 4, 'Schedule': 14,
+                        'Restart': 3, 'PresenceDown': 5, 'PresenceUp': 5})
     if profile == 'c05':
         # identity groups resized, deleted and re-created - also twice in a row with no cycle in between - while
         # instances hold identities; restarts force recorded identities back
@@ -1368,6 +1387,7 @@ def gen_case(rng, profile='c10', max_ops=None):
             # two identity-group events handled back to back (the master cycles only every other second): shrunk and
             # grown again, or deleted and created again, while instances hold the upper identities; then a newcomer
             g = rng.choice(gids)
+            ops.append(['Tick', 2])          # every cycle is preceded by a Tick (run_loop spaces cycles by 2 s)
             ops.append(['MasterCycle'])
             if rng.random() < 0.6:
                 ops.append(['IdentityGroup', g, rng.choice([0, 1])])
@@ -1380,6 +1400,7 @@ def gen_case(rng, profile='c10', max_ops=None):
                 ops.append(['Schedule', next_id, a])
                 live.append(next_id)
                 next_id += 1
+            ops.append(['Tick', 2])
             ops.append(['MasterCycle'])
         elif k == 'ServerState' and existing:
             st = rng.choice(['frozen', 'frozen', 'up', 'down'])
